@@ -458,3 +458,98 @@ Proof.
   split; [exact Hsend|]. split; [|split; reflexivity].
   apply bank_send_Some in Hsend as (_ & _ & Hg). intros a d. apply Hg.
 Qed.
+
+(* ------------------------------------------------------------------------------------ *)
+(* 6. non-vacuity: a concrete L2 history (a credited deposit, a user withdrawal, a refunded *)
+(*    deposit) and a concrete L1 state meet every hypothesis of the two theorems            *)
+(* ------------------------------------------------------------------------------------ *)
+Module C04Example.
+  Import Coq.Strings.String. Local Open Scope string_scope. Notation length := List.length.
+  Definition H32 (x : bytes) : bytes := firstn_pad 32 x.
+  Lemma H32_len x : length (H32 x) = 32%nat.
+  Proof.
+    unfold H32. generalize 32%nat. intros n. revert x. induction n as [|n IH]; intros x; [done|].
+    destruct x; cbn; by rewrite IH.
+  Qed.
+
+  Definition tbl2 (s : bytes) : option N :=
+    if bytes_eqb s (bs "exec") then Some 1%N else if bytes_eqb s (bs "alice") then Some 2%N else None.
+  Definition c2 : L2.cfg :=
+    {| L2.resolve := tbl2; L2.blocked := λ _, false; L2.authority := bs "auth"; L2.modacc := 100; L2.feecol := 101 |}.
+  Definition s2 : L2.l2state :=
+    {| L2.bk := bank_empty; L2.next_l1 := 1; L2.next_l2 := 1; L2.pairs := ∅;
+       L2.prm := {| L2.p_admin := bs "exec"; L2.p_execs := [bs "exec"]; L2.p_maxv := 1; L2.p_hist := 1;
+                    L2.p_mingas := []; L2.p_whitelist := []; L2.p_hookgas := 0 |};
+       L2.info := None; L2.vs := vempty; L2.seqs := ∅; L2.wlog := []; L2.dlog := [] |}.
+  Definition dep (seq : N) (to : bytes) (amt : Z) : L2.msg :=
+    L2.MFinalizeDeposit {| L2.fd_sender := bs "exec"; L2.fd_from := bs "l1user"; L2.fd_to := to;
+                           L2.fd_denom := bs "l2/abc"; L2.fd_amt := amt; L2.fd_seq := seq; L2.fd_height := 5;
+                           L2.fd_base := bs "uinit"; L2.fd_hook := L2.HNone |}.
+  Definition h2 : list L2.msg :=
+    [dep 1 (bs "alice") 100; L2.MWithdraw (bs "alice") (bs "l1user") (bs "l2/abc") 40; dep 2 (bs "nobody") 7].
+  (* the recorded withdrawals, oldest first: alice's 40 and the refund of 7 *)
+  Definition ws : list L2.wrec := rev (L2.wlog (L2.run c2 s2 h2).1).
+  Example ws_two : map (λ w, (L2.w_seq w, L2.w_amt w, L2.w_refund w)) ws = [(1%N, 40%Z, false); (2%N, 7%Z, true)].
+  Proof. vm_compute. reflexivity. Qed.
+
+  Lemma h2_fields : Forall (wrec_fields c2 (L2.run c2 s2 h2).1) (L2.wlog (L2.run c2 s2 h2).1).
+  Proof.
+    apply c04_recorded_fields; [reflexivity| |reflexivity|cbn; lia|intros d b Hx; cbn in Hx; by rewrite lookup_empty in Hx].
+    repeat constructor; cbn; try discriminate; vm_compute; done.
+  Qed.
+
+  Definition tbl1 (s : bytes) : option N :=
+    if bytes_eqb s (bs "l1user") then Some 1%N else if bytes_eqb s (bs "prop") then Some 2%N else None.
+  Definition c1 : L1.cfg :=
+    {| L1.resolve := tbl1; L1.gov := bs "gov"; L1.escrow := λ b, (1000 + b)%N; L1.pool := 50; L1.hash := H32;
+       L1.parse := λ _, None |}.
+  Definition w1 : L2.wrec :=
+    {| L2.w_seq := 1; L2.w_from := bs "alice"; L2.w_to := bs "l1user"; L2.w_denom := bs "l2/abc";
+       L2.w_base := bs "uinit"; L2.w_amt := 40; L2.w_refund := false |}.
+  Definition w2 : L2.wrec :=
+    {| L2.w_seq := 2; L2.w_from := bs "nobody"; L2.w_to := bs "l1user"; L2.w_denom := bs "l2/abc";
+       L2.w_base := bs "uinit"; L2.w_amt := 7; L2.w_refund := true |}.
+  Example ws_are : ws = [w1; w2].
+  Proof. vm_compute. reflexivity. Qed.
+  Definition leaves : list bytes := [claim_leaf c1 1 w1; claim_leaf c1 1 w2].
+  Definition bh : bytes := repeat 9%N 32.
+  Definition x1 : L1.config :=
+    {| L1.c_proposer := bs "prop"; L1.c_challenger := bs "prop"; L1.c_period := 7000000000; L1.c_interval := 1;
+       L1.c_start := 1; L1.c_batch := {| L1.b_submitter := bs "prop"; L1.b_chain := 1 |}; L1.c_oracle := false;
+       L1.c_meta := [] |}.
+  Definition o1 : L1.output :=
+    {| L1.o_root := output_root H32 0 (build H32 leaves) bh; L1.o_l1h := 3; L1.o_time := 1000000000; L1.o_l2 := 10 |}.
+  Definition s1 : L1.l1state :=
+    {| L1.bk := {| bal := {[ (1001%N, bs "uinit") := 107%Z ]}; sup := ∅ |};
+       L1.next_bridge := 2; L1.configs := {[ 1%N := x1 ]}; L1.next_seq := {[ 1%N := 3%N ]};
+       L1.next_out := {[ 1%N := 2%N ]}; L1.outputs := {[ (1%N, 1%N) := o1 ]}; L1.proven := ∅; L1.pairs := ∅;
+       L1.batches := ∅; L1.regfee := []; L1.chans := ∅; L1.admins := ∅; L1.elog := []; L1.plog := [] |}.
+  Definition e1 : L1.env := {| L1.now := 8000000000; L1.height := 9 |}.
+
+  (* the refund (position 1 of the two-leaf tree) meets every hypothesis of c04_claimable *)
+  Example refund_claimable :
+    ∃ s', L1.step c1 e1 s1 (claim_msg c1 (bs "prop") 1 1 w2 leaves 1 0 bh) = (s', L1.Ok L1.RNone) ∧
+          getb (L1.bk s') 1 (bs "uinit") = 7%Z ∧ getb (L1.bk s') 1001 (bs "uinit") = 100%Z.
+  Proof.
+    assert (Hw2 : wrec_fields c2 (L2.run c2 s2 h2).1 w2).
+    { pose proof h2_fields as Hf. rewrite List.Forall_forall in Hf. apply Hf.
+      apply in_rev. fold ws. rewrite ws_are. right; left; reflexivity. }
+    assert (A1 : (0 < L2.w_amt w2)%Z) by (vm_compute; reflexivity).
+    assert (A2 : L1.resolve c1 (L2.w_to w2) = Some 1%N) by (vm_compute; reflexivity).
+    assert (A3 : is_Some (L1.resolve c1 (bs "prop"))) by (vm_compute; eauto).
+    assert (A4 : (1 ≤ 1)%N) by lia.
+    assert (A5 : L1.configs s1 !! 1%N = Some x1) by apply lookup_singleton.
+    assert (A6 : L1.outputs s1 !! (1%N, 1%N) = Some o1) by apply lookup_singleton.
+    assert (A7 : L1.o_root o1 = output_root (L1.hash c1) 0 (build (L1.hash c1) leaves) bh) by reflexivity.
+    assert (A8 : L1.is_final x1 e1 o1 = true) by (vm_compute; reflexivity).
+    assert (A9 : Forall (λ y, length y = 32%nat) leaves) by (repeat constructor; apply H32_len).
+    assert (A10 : (1 < length leaves)%nat) by (cbn [leaves length]; lia).
+    assert (A11 : nth 1 leaves [] = claim_leaf c1 1 w2) by reflexivity.
+    assert (A12 : (1%N, claim_leaf c1 1 w2) ∉ L1.proven s1) by apply not_elem_of_empty.
+    assert (A13 : (L2.w_amt w2 ≤ getb (L1.bk s1) (L1.escrow c1 1) (L2.w_base w2))%Z) by (vm_compute; discriminate).
+    assert (A14 : length bh = 32%nat) by reflexivity.
+    destruct (c04_claimable c1 e1 s1 c2 (L2.run c2 s2 h2).1 w2 (bs "prop") 1 1 x1 o1 1 leaves 1 0 bh
+                H32_len Hw2 A1 A2 A3 A4 A4 A5 A6 A7 A8 A9 A10 A11 A12 A13 A14) as (s' & Hs & _ & Hb & _).
+    exists s'. split; [exact Hs|]. rewrite !Hb. split; vm_compute; reflexivity.
+  Qed.
+End C04Example.
